@@ -1236,6 +1236,7 @@ bool _nthroot_mod_prime_power(std::vector<RCP<const Integer>> &roots,
                 t = pk / pc * root;
                 for (unsigned i = 0; i < 2; ++i) {
                     for (unsigned long j = 0; j < pc; ++j) {
+                        mp_fdiv_r(root, root, pk);
                         roots.push_back(integer(root));
                         root += t;
                     }
@@ -1385,13 +1386,15 @@ bool nthroot_mod(const Ptr<RCP<const Integer>> &root,
     bool ret_val;
 
     std::vector<RCP<const Integer>> rem;
+    integer_class _a;
+    mp_fdiv_r(_a, a->as_integer_class(), mod->as_integer_class());
     for (const auto &it : prime_mul) {
         integer_class _mod;
         mp_pow_ui(_mod, it.first->as_integer_class(), it.second);
         moduli.push_back(integer(std::move(_mod)));
         ret_val = _nthroot_mod_prime_power(
-            rem, a->as_integer_class(), n->as_integer_class(),
-            it.first->as_integer_class(), it.second, false);
+            rem, _a, n->as_integer_class(), it.first->as_integer_class(),
+            it.second, false);
         if (not ret_val)
             return false;
     }
@@ -1415,14 +1418,16 @@ void nthroot_mod_list(std::vector<RCP<const Integer>> &roots,
     bool ret_val;
 
     std::vector<std::vector<RCP<const Integer>>> rem;
+    integer_class _a;
+    mp_fdiv_r(_a, a->as_integer_class(), m->as_integer_class());
     for (const auto &it : prime_mul) {
         integer_class _mod;
         mp_pow_ui(_mod, it.first->as_integer_class(), it.second);
         moduli.push_back(integer(std::move(_mod)));
         std::vector<RCP<const Integer>> rem1;
         ret_val = _nthroot_mod_prime_power(
-            rem1, a->as_integer_class(), n->as_integer_class(),
-            it.first->as_integer_class(), it.second, true);
+            rem1, _a, n->as_integer_class(), it.first->as_integer_class(),
+            it.second, true);
         if (not ret_val)
             return;
         rem.push_back(rem1);
@@ -1591,11 +1596,13 @@ i.e a % mod in set([i**n % mod for i in range(mod)]).
     map_integer_uint prime_mul;
     prime_factor_multiplicities(prime_mul, *mod2);
     bool ret_val;
+    integer_class _a;
+    mp_fdiv_r(_a, a.as_integer_class(), _mod);
 
     for (const auto &it : prime_mul) {
         ret_val = _is_nthroot_mod_prime_power(
-            a.as_integer_class(), n.as_integer_class(),
-            it.first->as_integer_class(), it.second);
+            _a, n.as_integer_class(), it.first->as_integer_class(),
+            it.second);
         if (not ret_val)
             return false;
     }
